@@ -150,6 +150,23 @@ def eq_self_type(t):
     return t[1] + " " + " ".join(t[2]) if is_call(t) else ""
 
 
+def asserts_eq_const(c):
+    """(x, k) if the path condition says that the integer term x equals the constant k, however the test is spelled:
+    `x == k` taken, `x != k` not taken (either operand order), or the arm k of `match x`"""
+    t = c.term
+    if isinstance(t, tuple) and t and t[0] == "binop" and t[1] in ("Eq", "Ne") and c.fact[0] == "eq" and isinstance(c.fact[1], bool):
+        if (c.fact[1] is True) != (t[1] == "Eq"):
+            return None
+        if const_int(t[3]) is not None and const_int(t[2]) is None:
+            return (t[2], const_int(t[3]))
+        if const_int(t[2]) is not None and const_int(t[3]) is None:
+            return (t[3], const_int(t[2]))
+        return None
+    if isinstance(t, tuple) and t and t[0] in ("havoc", "mutated", "param", "field", "loc") and c.fact[0] == "eq" and isinstance(c.fact[1], int) and not isinstance(c.fact[1], bool):
+        return (t, c.fact[1])
+    return None
+
+
 def str_eq_lit(t):
     """cond term is `x == "lit"` (either side); returns (negated, x, lit)"""
     e = eq_call(t)
